@@ -241,3 +241,6 @@ def run(fx, rep, tier):  # noqa: F811
     _run1(fx, rep, tier)
     r2_builtins(fx, rep, tier)
     r7_dispatch(fx, rep, tier)
+    # round(x, n) with a negative n is written `round(x, -2)`: the sign belongs to the literal in every argument position
+    from . import c12
+    c12.r10_forward_only(fx["dev"], rep, "C10-R8")
